@@ -55,6 +55,9 @@ ALL_FORMS = {'none': '', 'assign': "__all__ = ['handler', 'Handler']", 'augassig
 ALL_NAMES = {'none': [], 'assign': ['handler', 'Handler'], 'augassign': ['helper_function'], 'annotated': ['module_counter'], 'tuple-not-list': [],
              'chained-first': ['handler', 'helper_function'], 'chained-second': ['Handler', 'module_counter'], 'two-assignments': ['handler', 'shared_message']}
 
+OTHERS_OFF = dict(remove_literal_statements=False, combine_imports=False, remove_annotations=False, remove_pass=False, remove_object_base=False, remove_asserts=False,
+                  remove_debug=False, remove_explicit_return_none=False, constant_folding=False, remove_builtin_exception_brackets=False, convert_posargs_to_args=False,
+                  hoist_literals=False)
 LOCAL_LISTS = [[], ['local_value'], ['local_value', 'another_local'], ['first_argument'], ['loop_variable'], ['nested_local', 'inner_argument'], ['absent_name'], ['len']]
 GLOBAL_LISTS = [[], ['handler'], ['helper_function', 'Handler'], ['module_counter', 'shared_message'], ['absent_name'], ['os'], ['print', 'len']]
 
@@ -173,9 +176,14 @@ def run(args, rep):
                             listed += [(n, 'g') for n in pg if n in ids and n not in ('print', 'len')]
                             listed += [(n, 'g') for n in ALL_NAMES[form]]
                         listed = sorted(set(listed))
-                        jobs.append({'id': 'mod|%s|%d%d|L=%s|G=%s|%s' % (form, rl, rg, ','.join(pl), ','.join(pg), 'str' if as_string else 'list'), 'src': src, 'opts': o,
-                                     'listed': listed, 'expect': {n: ids.count(n) for n, _k in listed}, 'other_kind': {},
-                                     'all_text': alltext if form not in ('none',) and False else ''})
+                        # once with the other transforms at their defaults, once with all of them off (annotations, literal statements, pass ... are then still
+                        # there when names are bound: what is preserved must not depend on what another transform happened to rewrite first)
+                        for bn, base in (('', {}), ('+others-off', OTHERS_OFF)):
+                            if bn and args.tier == 'quick' and not (as_string is False and (not pl or not pg)):
+                                continue
+                            jobs.append({'id': 'mod|%s|%d%d|L=%s|G=%s|%s%s' % (form, rl, rg, ','.join(pl), ','.join(pg), 'str' if as_string else 'list', bn), 'src': src,
+                                         'opts': dict(base, **o), 'listed': listed, 'expect': {n: ids.count(n) for n, _k in listed}, 'other_kind': {},
+                                         'all_text': alltext if form not in ('none',) and False else ''})
     for ep in ('handler', 'helper_function', 'Handler'):
         src = MODULE.replace('{ALL}', '').replace('{DIR}', 'False')
         ids = identifiers(src)
